@@ -132,6 +132,28 @@ def build_cases(tier):
                 continue
             cases.append(dict(label=f"fixture:{name}", schema=schema_text, queries=queries, options=dict(keep, **var), files={}, expect="ok",
                               tags={f"fixture:{name}"} | {f"{k}={v}" for k, v in var.items()}))
+    # fragment graphs whose alphabetical name order disagrees with the dependency order (class ordering in fragments.py)
+    from mc import corpus2
+    for names in itertools.permutations(("Alpha", "Beta", "Gamma")):
+        for g in corpus2.fragment_graphs(3, ("User", "Node") if tier != "quick" else ("User",), names=names):
+            if tier == "quick" and "root:one" not in g["tags"] and len(g["edges"]) < 2:
+                continue
+            add("frag_names", corpus.SCHEMA_K, g["doc_text"], tags={"fragment_graph", f"names:{'<'.join(names)}"} | g["tags"])
+    # member names: Python keywords, pydantic BaseModel attributes (as written and in camelCase / PascalCase, which only collide
+    # after snake-casing), Enum-reserved names; one tiny schema per name, as result field, input field, argument, variable and enum value
+    for n in name_catalogue():
+        positions = {
+            "result_field": (f"type T {{ {n}: Int }}\ntype Query {{ t: T }}\n", f"query Q {{ t {{ {n} }} }}\n"),
+            "input_field": (f"input I {{ {n}: Int }}\ntype Query {{ t(i: I): Int }}\n", "query Q($i: I) { t(i: $i) }\n"),
+            "variable": ("type Query { t(a: Int): Int }\n", f"query Q(${n}: Int) {{ t(a: ${n}) }}\n"),
+        }
+        if n not in ("true", "false", "null"):
+            positions["enum_value"] = (f"enum E {{ {n} OTHER }}\ntype Query {{ e(x: E): E }}\n", "query Q($x: E) { e(x: $x) }\n")
+        for pos, (sch, q) in positions.items():
+            for cfg in ({}, {"convert_to_snake_case": False}):
+                if cfg and tier == "quick" and n.islower() and "_" not in n:
+                    continue  # snake-casing is the identity on these names
+                add("member_name", sch, q, cfg, tags={"member_name", f"name:{n}@{pos}"} | {f"{k}={v}" for k, v in cfg.items()})
     # refusals
     add("anon", corpus.SCHEMA_K, "{ user { id } }\n", expect="refusal", tags={"refusal:anonymous"})
     add("anon2", corpus.SCHEMA_K, "query { user { id } }\n", expect="refusal", tags={"refusal:anonymous"})
@@ -141,6 +163,23 @@ def build_cases(tier):
     for a, b in (("getUser", "get_user"), ("Client", "client"), ("Enums", "enums"), ("BaseModel", "base_model"), ("Fragments", "fragments"), ("InputTypes", "input_types")):
         add("collide_ops", corpus.SCHEMA_K, f"query {a} {{ user {{ id }} }}\nquery {b} {{ user {{ name }} }}\n{FR}", expect="ParsingError", tags={"refusal:collision", f"collide:{a}/{b}"})
     return cases
+
+
+def name_catalogue():
+    import keyword
+    import pydantic
+    base = set(keyword.kwlist) | set(keyword.softkwlist) | {a for a in dir(pydantic.BaseModel) if not a.startswith("_")}
+    base |= {"name", "value", "mro", "self", "cls", "typename", "id", "type", "Any", "List", "Optional", "Field", "BaseModel", "Enum", "str", "int", "None_"}
+    out = set()
+    for n in base:
+        out.add(n)
+        if "_" in n.strip("_"):
+            parts = n.split("_")
+            out.add(parts[0] + "".join(p.capitalize() for p in parts[1:]))   # model_dump -> modelDump
+            out.add("".join(p.capitalize() for p in parts))                   # ModelDump
+        else:
+            out.add(n.capitalize() if n.islower() else n.lower())
+    return sorted(x for x in out if re.fullmatch(r"[A-Za-z][A-Za-z0-9_]*", x))
 
 
 def evaluate(case):
